@@ -339,7 +339,7 @@ RULE_ADDENDA = {
     "C11": "Also generated: sync answers that say finalized; discovery order (status subresource listed before the resource). The parent deleted and finalizing between syncs.",
     "C12": "Also generated: plain 404 at every request; scenarios whose faulted sync is the finalize or finalizer-removal sync of a deleted parent; a customize hook whose calls are faulted too, with the related map after recovery compared; a 404 on a read of the parent must lead to a retry or to all non-parent work being done. 409 on a child delete (must be retried); 6-11 consecutive failed syncs; a restart under server-side apply.",
     "C13": "Also generated: per-field lists of type-correct but unusable values (selectors that cannot be converted, impossible names, versions, resources); after a customize attack related add/update/delete events are delivered to the handlers. Malformed answers during a rollout, optionally for superseded revisions only; in strict mode an unknown field of the real response types must be rejected.",
-    "C14": "Also generated: selectors rendered as matchExpressions. A separate job on the live path (hosted controller started through Reconcile, real informers, handlers, queue and workers): two parents with one hook-made child each; 2-5 single events (child edited / deleted, parent edited / annotated / created) after the controller has gone quiet, each must lead to a hook call about the parent concerned and, for child events, to none about the other parent (non-trivial = every case).",
+    "C14": "Also generated: selectors rendered as matchExpressions. A separate job on the live path (hosted controller started through Reconcile, real informers, handlers, queue and workers): two parents with one hook-made child each; 2-5 single events (child edited / deleted, parent edited / annotated / created) after the controller has gone quiet, each must lead to a hook call about the parent concerned and, for child events, to none about the other parent; with a finalize hook the case ends with the deletion of a finalizer-carrying parent (finalize hook called, children gone, parent let go) (non-trivial = every case).",
     "C15": "Also generated: empty / expression-only selectors in invalid mixes; selectors that cannot be converted; parents deleted and held by the finalizer. A separate job on the live path (real Reconcile/Start and shared informers, the customize manager registering its own handlers): rules naming gadgets, the controller's own parent resource (peers) or its child resource, by label or not; 2-5 create/update/delete operations on related objects, each selected one must make the hook be called again for the parent with exactly the selected set (non-trivial = a selected object changed).",
     "C16": "Also generated: target deletion, target replacement and a stale target cache between syncs; selectors as matchExpressions; empty-string patch values; every target write is judged on the live object before/after it (UID, spec, foreign metadata).",
     "C17": "Carriers now include the C08 and C09 generators (with stored ControllerRevisions relisted in another order). The concurrent-vs-sequential comparison includes the related-informer subscription counts and the related map of every hook call. Parents in two namespaces.",
